@@ -48,8 +48,8 @@ func cliCases() []cliCase {
 	var out []cliCase
 	for d := range cliPairs {
 		for _, ppa := range []string{"", "0", "1", "0.9"} {
-			for _, ms := range []string{"", "0.3", "0.95"} {
-				for _, mw := range []string{"", "0.3", "0.95"} {
+			for _, ms := range []string{"", "0", "0.3", "0.95", "1"} {
+				for _, mw := range []string{"", "0", "0.3", "0.95", "1"} {
 					for _, j := range []int{1, 2} {
 						out = append(out, cliCase{d, ppa, ms, mw, j})
 					}
